@@ -173,6 +173,8 @@ class JsonWebSignature:
         payload_segment = obj.get("payload")
         if payload_segment is None:
             raise DecodeError('Missing "payload" value')
+        if not isinstance(payload_segment, (str, bytes)):
+            raise DecodeError('Invalid "payload" value')
 
         payload_segment = to_bytes(payload_segment)
         payload = _extract_payload(payload_segment)
@@ -302,6 +304,10 @@ class JsonWebSignature:
         signature_segment = header_obj.get("signature")
         if not signature_segment:
             raise DecodeError('Missing "signature" value')
+
+        for segment in (protected_segment, signature_segment):
+            if not isinstance(segment, (str, bytes)):
+                raise DecodeError("Invalid segment value")
 
         protected_segment = to_bytes(protected_segment)
         protected = _extract_header(protected_segment)
